@@ -39,8 +39,11 @@ pub assume_specification<'a, K, V, A: Allocator, F: FnOnce(&mut V)>[ Entry::<'a,
                  *mr == entry.value()->0 && *final(mr) == r.value()->0 && call_ensures(f, (mr,), ()),
              r.final_value() == entry.final_value();
 
-// Assumed: `Link`'s `Hash` impl is consistent with its `Eq` impl (the `Eq` impl itself is verified below),
-// and `Ptr` (an address) is a lawful hash-table key.
+// Assumed here: `Link`'s `Hash` impl is consistent with its `Eq` impl (the `Eq` impl itself is verified below),
+// and `Ptr` (an address) is a lawful hash-table key.  The executable half of the first assumption is discharged
+// outside Verus by the complete Kani harness `u2_link_hash_agrees_with_eq` (all addresses, all kinds: `==` is an
+// equivalence, and equal links feed identical input to any hasher); what stays trusted is that std's/hashbrown's
+// table is a map for such a key and that the hasher is deterministic.
 #[verifier::external_body]
 pub proof fn axiom_key_models()
     ensures obeys_key_model::<Link>(), obeys_key_model::<Ptr>(),
